@@ -664,21 +664,41 @@ Proof.
     split; [change (c_esp (core_of s4) = []); rewrite C4; exact Y1|change (c_recv (core_of s4) = []); rewrite C4; exact Y2].
 Qed.
 
-Lemma disccb_inv s : Inv s -> Inv (dev_step s DiscCb).
+(* the disconnect callback re-establishes the invariant whatever the receive buffer held (bytes stored while no SRPC instance
+   existed: a segment delivered in the closing window) *)
+Lemma disc_step_inv s s0 r : Inv s0 -> core_of s = with_recv r (core_of s0) -> Inv (disc_step s).
 Proof.
-  intros HI. cbn [dev_step].
+  intros HI C0. unfold disc_step.
   set (s1 := if link s =? L_LIVE then wire_close s else s).
   assert (C1 : core_of s1 = core_of s) by (subst s1; destruct (_ =? _); [apply core_wire_close|reflexivity]).
   unfold disconnect_cb.
   set (s1' := emit O_DISCD [now s1; conn s1; evi s1] s1).
   set (s2 := set_recvbuf [] (set_espbuf [] (gpio_state_ipreceived (set_link L_IDLE s1')))).
-  assert (C2 : core_of s2 = with_recv [] (with_esp [] (with_link L_IDLE (core_of s)))).
+  assert (C2 : core_of s2 = with_recv [] (with_esp [] (with_link L_IDLE (core_of s0)))).
   { subst s2. change (core_of (set_recvbuf [] (set_espbuf [] ?x))) with (with_recv [] (with_esp [] (core_of x))).
-    rewrite core_gpio_ip. change (core_of (set_link L_IDLE s1')) with (with_link L_IDLE (core_of s1)). rewrite C1. reflexivity. }
+    rewrite core_gpio_ip. change (core_of (set_link L_IDLE s1')) with (with_link L_IDLE (core_of s1)). rewrite C1, C0. reflexivity. }
   assert (I2 : Inv s2).
   { unfold Inv. rewrite C2. destruct consts_ok as [? ? ? ? ? [K1 [K2 [K3 [K4 K5]]]]].
     destruct HI as [FX FY A B C D F G ST]. constructor; cbn in *; auto. intros Hl. contradiction. }
   destruct (started s2); auto.
+Qed.
+Lemma disccb_inv s : Inv s -> Inv (dev_step s DiscCb).
+Proof. intros HI. cbn [dev_step]. apply (disc_step_inv s s (recvbuf s)); auto. Qed.
+Lemma recv_closing_inv b s : Inv s -> Inv (disc_step (recv_cb b (emit O_RX [now s; conn s; evi s] s))).
+Proof.
+  intros HI. set (s0 := emit O_RX [now s; conn s; evi s] s). assert (HI0 : Inv s0) by (eapply Inv_core; [|eauto]; reflexivity).
+  clearbody s0. clear HI s. destruct (srpc s0) as [p|] eqn:E.
+  - (* an instance exists: the ordinary receive path keeps the invariant *)
+    assert (HR : Inv (recv_cb b s0)).
+    { unfold recv_cb. destruct (len b =? 0); auto. destruct (_ <=? _); auto.
+      apply devconn_iterate_inv. change (InvC (with_recv (recvbuf s0 ++ b) (core_of s0))).
+      apply InvC_recv; auto. cbn. rewrite E. discriminate. }
+    apply (disc_step_inv (recv_cb b s0) (recv_cb b s0) (recvbuf (recv_cb b s0))); auto.
+  - (* no instance: the bytes are only stored *)
+    assert (C : core_of (recv_cb b s0) = with_recv (recvbuf (recv_cb b s0)) (core_of s0)).
+    { unfold recv_cb. destruct (len b =? 0); [reflexivity|]. destruct (_ <=? _); [|reflexivity].
+      unfold devconn_iterate. cbn [srpc set_recvbuf]. rewrite E. reflexivity. }
+    apply (disc_step_inv _ s0 _ HI0 C).
 Qed.
 
 Lemma dev_step_inv s e : sites_ok CallSites = true -> Inv s -> env_allows s e = true -> Inv (dev_step s e).
@@ -688,7 +708,8 @@ Proof.
   - eapply Inv_core; [|eauto]; reflexivity.
   - cbn [env_allows] in HE. apply Z.eqb_eq in HE. apply (conncb_state s HI HE).
   - apply disccb_inv; auto.
-  - cbn [env_allows] in HE. apply Z.eqb_eq in HE. apply recv_cb_inv; auto.
+  - destruct (link s =? L_CLOSING) eqn:EC; [apply recv_closing_inv; auto|].
+    cbn [env_allows] in HE. rewrite EC, orb_false_r in HE. apply Z.eqb_eq in HE. apply recv_cb_inv; auto.
   - eapply Inv_core; [|eauto]; reflexivity.
   - eapply Inv_core; [|eauto]; reflexivity.
   - apply local_call_inv; auto.
